@@ -35,6 +35,19 @@ ASSUMPTIONS = ["a write(2) call that does not fail accepts at least one byte (ot
 TRUSTED = ["glibc open/close, json-c's strerror override (_JSON_C_STRERROR_ENABLE), ld --wrap interposition of "
            "read/write/json_tokener_parse_ex and of the allocation entry points"]
 DEFECTS = []
+# behaviours seen while modelling that do not contradict C20 (the model reproduces each of them exactly)
+OBSERVATIONS = [
+    "write(2) returning 0 for ever makes _json_object_to_fd spin (wpos += 0): theorem write_zero_never_returns; "
+    "finite runs of zero returns are retried correctly",
+    "json_object_to_json_string_ext returning NULL makes _json_object_to_fd return -1 without setting a message "
+    "(op: write 0 [i1] NULL -)",
+    "a descriptor holding the text `null` yields NULL *and* the message 'json_tokener_parse_ex failed: success' "
+    "(same as the in-memory parse: NULL object, tokener error success)",
+    "a descriptor holding `123` (no byte after the number) yields NULL / 'continue', exactly as one "
+    "json_tokener_parse_ex(tok, buf, len) call does; json_tokener_parse(\"123\") succeeds because it feeds the NUL",
+    "in_depth < 1 other than -1 fails with 'unable to allocate json_tokener(depth=..)' and the text of whatever errno "
+    "held at entry",
+]
 
 MANIFEST = dict(
     text="Lean 4 theorems over a checked-C model of json_util.c's descriptor I/O, with the serializer, the tokener and "
@@ -69,7 +82,15 @@ def ENV(C):
     return {"VERIF_FDIO_DIR": _workdir(C), "_JSON_C_STRERROR_ENABLE": "1"}
 
 
+def _cleanup(C):
+    import shutil
+    for suffix in ("", "-ser"):
+        shutil.rmtree(_workdir(C) + suffix, ignore_errors=True)
+
+
 def prepare(C, tier):
+    import atexit
+    atexit.register(_cleanup, C)      # a crashed or killed harness leaves its scratch directory behind
     _H["bin"] = C.build_harness(HARNESS, VARIANT, EXTRA_FLAGS, WRAPS)
     e = dict(os.environ)
     e.update(ENV(C))
